@@ -79,6 +79,7 @@ struct Calls {
   uint64_t errors = 0; // calls that returned -1 by injection
   uint64_t natural_errors = 0; // calls that returned -1 for a modelled reason (ENOENT, EBADF ...)
   int last_errno = 0;
+  int last_poll_timeout = -12345; // timeout argument of the most recent poll() on virtual descriptors
   uint64_t ebadf = 0; // operations on a closed / unknown virtual descriptor
   uint64_t double_close = 0;
 };
@@ -95,6 +96,7 @@ struct World {
   // hook invoked between directory-related calls (used for the concurrent deleter task)
   void (*between_dir_calls)() = nullptr;
   bool shuffle_readdir = false;
+  bool own_empty_polls = false; // poll() with no descriptors is answered here (returns 0 at once) instead of really sleeping
 };
 
 World& world();
